@@ -84,6 +84,9 @@ def gen_cases(tier, seed):
             covlen = rng.choice([0.25, 0.4, 0.6, 1.0]); cov = 1.0
             lengths = [[u, v, rng.choice([1, 2, 5])] for (u, v) in edges if rng.random() < 0.7]
         cases.append({"covlen": covlen, "lengths": lengths, "spec": gen.spec(nodes, edges, eattr={(u, v): {"len": l} for u, v, l in lengths}), "cyc": cyc, "node": node, "ignore": gen.jl(ign), "starts": starts, "ends": ends, "cons": gen.jl(cons), "cov": cov})
+        if covlen and rng.random() < 0.3:
+            # the same lengths stored as numpy integers (what a graph built from an array carries)
+            cases[-1]["spec"]["np_type"] = rng.choice(["int64", "int32", "uint8"]); cases[-1]["spec"]["np_attrs"] = ["len"]
     return cases
 
 
